@@ -24,9 +24,18 @@ META = {
                   "refine the lane meaning in all four components u32x4, u32x4x4, u64x4, u128x1/x2, either build profile), "
                   "C03_backends_agree (any two configurations of any of the three macros give the same ChaCha narrow/wide rounds, "
                   "BLAKE 32/64 rounds and JH rounds on all well-formed inputs, and neither panics), C03_real_backends_are_lane, "
-                  "C03_jh_lane_is_model / C03_real_backends_e8_is_model (JH's E8 on every real back end is Model/JH.v's e8). Not written "
-                  "over the machine record (covered by the correspondence only): the framing code around the round cores "
-                  "(feed-forward, transpose4, put_block framing, f8_impl load/xor). The tie to the code is the battery: every configuration "
+                  "C03_jh_lane_is_model / C03_real_backends_e8_is_model (JH's E8 on every real back end is Model/JH.v's e8). The framing code "
+                  "is covered too (Model/MachineFull.v: the machine record extended by storage conversion, byte output, lane access, "
+                  "the u64 counter views, transpose4; Proofs/MachineFull*.v): the WHOLE block functions refill_narrow, refill_wide, "
+                  "init_chacha_x, seek32/seek64, JH f8, BLAKE put_block (both word sizes) and finalize written over it are independent of "
+                  "any refining machine (C03_chacha_refill_narrow/wide_machine_indep, C03_jh_f8_machine_indep, "
+                  "C03_blake_put_block_machine_indep), their lane instance is the executable model the other properties are about "
+                  "(C03_chacha_refill_lane_is_model, C03_jh_f8_is_model, C03_blake_put_block_is_model), the six real machines refine "
+                  "(C03_real_xinst_refines), hence C03_real_blocks_are_model (on every back end and profile each block function equals "
+                  "Model.ChaChaGuts.refill / refill_wide, JH.m_f8, Blake.put_block32/64, compressor_finalize) and C03_real_blocks_agree "
+                  "(in every configuration of the three macros with SSE2 detected the dispatched function returns that value, never "
+                  "the unimplemented!() arm). Scalar code without a Machine (ChaCha::new, stream parameters) is outside this "
+                  "statement. The tie to the code is the battery: every configuration "
                   "must reproduce the model's outputs and the model's selected Machine type, and all configurations must "
                   "agree with each other; a child process that dies (SIGILL/SIGSEGV) or panics is an outcome.",
     "level_note": "Trusted: Coq kernel+VM; the hand-written models (tied on generated cases); hook H1 (b4591b7); harness. "
